@@ -195,6 +195,21 @@ def parse_filter_arg(args):
 
 def _add_prefix(filter):
     """Add prefix "sp." to a (possibly nested) filter."""
+    prefixed = {}
+    clashes = []
+    for key, value in _add_prefix_items(filter):
+        if key in prefixed:
+            # The same key was given with and without its namespace prefix
+            # (e.g. "a" and "sp.a"): all of its conditions must hold.
+            clashes.append({key: value})
+        else:
+            prefixed[key] = value
+    if clashes:
+        prefixed["$and"] = list(prefixed.get("$and", ())) + clashes
+    yield from prefixed.items()
+
+
+def _add_prefix_items(filter):
     # Logical operators ($and, $or, $not) should not be prefixed, but their values should.
     for key, value in filter.items():
         if key in ("$and", "$or"):
